@@ -5,6 +5,7 @@ import ExecnetVerif.Proofs.SerGrammar
 import ExecnetVerif.Proofs.SerPrefix
 import ExecnetVerif.Props.C01
 import ExecnetVerif.Generated.Tables
+import ExecnetVerif.Proofs.ReadExactLemmas
 namespace ExecnetVerif
 
 /-- **C13 (totality and typed errors).** `loads` is a total function of the byte string — Lean
@@ -116,5 +117,30 @@ example : loads cfgPublic
     [2, 75, 0, 0, 0, 2, 70, 0, 0, 0, 0, 70, 0, 0, 0, 7, 80, 70, 0, 0, 0, 1, 76, 80,
      74, 70, 0, 0, 0, 1, 78, 0, 0, 0, 2, 97] = .error .eof :=
   C13_no_prefix cfgPublic rfl rfl c13Sample c13Sample_WF _ (by decide) (by decide)
+
+/-! ### `load()` from a stream that hands the bytes out in pieces (`Model/Chunk.lean`: `unserReadExact`) -/
+
+/-- `Unserializer._read_exact` as the translator reads it: one `read(numbytes)`, then `read(numbytes - len(buf))` until
+complete, `EOFError` on an empty read, negative counts refused before anything is read -/
+theorem C13_read_exact_pinned :
+    Generated.readExactSteps = [(0, "if numbytes < 0"), (1, "raise LoadError"), (0, "buf = self.stream.read(numbytes)"),
+      (0, "while len(buf) < numbytes"), (1, "data = self.stream.read(numbytes - len(buf))"), (1, "if not data"),
+      (2, "raise EOFError"), (1, "buf += data"), (0, "return buf")] := by
+  decide
+
+/-- **C13 / C01 (any chunking).** However the stream cuts the input into non-empty pieces — every list of chunks —
+`_read_exact(n)` returns exactly the next `n` bytes and leaves exactly the rest, or, when fewer than `n` bytes are left,
+ends with `EOFError("expected n bytes, got <all that was left>")`: what `load()` sees does not depend on the chunking, so it
+is what `loads()` sees on the concatenation. -/
+theorem C13_read_exact_any_chunking (chunks : List Bytes) (n : Nat) (hne : ∀ c ∈ chunks, c ≠ []) :
+    (n ≤ chunks.flatten.length →
+      ∃ rest, unserReadExact chunks n = .ok (chunks.flatten.take n, rest) ∧ rest.flatten = chunks.flatten.drop n) ∧
+    (chunks.flatten.length < n → unserReadExact chunks n = .error chunks.flatten.length) :=
+  ⟨unserReadExact_ok chunks n hne, unserReadExact_short chunks n hne⟩
+
+/-- non-vacuity: 7 bytes in pieces of 1, 3, 2, 1; asking for 5 gives the first five and leaves the last two, asking for 9 fails
+having got 7 -/
+example : unserReadExact [[1], [2, 3, 4], [5, 6], [7]] 5 = .ok ([1, 2, 3, 4, 5], [[6], [7]]) ∧
+    unserReadExact [[1], [2, 3, 4], [5, 6], [7]] 9 = .error 7 := ⟨rfl, rfl⟩
 
 end ExecnetVerif
